@@ -71,6 +71,32 @@ def counterAfter (c : Counter) : List Key → Counter
   | [] => c
   | k :: rest => counterAfter (toggle c k).1 rest
 
+def insertNat (x : Nat) : List Nat → List Nat
+  | [] => [x]
+  | y :: ys => if y < x then y :: insertNat x ys else x :: y :: ys
+
+def sortNat : List Nat → List Nat
+  | [] => []
+  | x :: xs => insertNat x (sortNat xs)
+
+/-- the order in which `range_numbers_at_note` toggles the ranges that stop (or start) at one note:
+    the ones that are open already, then the new ones -/
+def groupOrder (c : Counter) (label : Nat) (rs : List Nat) : List Key :=
+  ((rs.filter fun r => (find (label, r) c).isSome) ++ (rs.filter fun r => (find (label, r) c).isNone)).map
+    fun r => (label, r)
+
+/-- `range_numbers_at_note(ranges, label, counter)`: the numbers as written (sorted) -/
+def numberGroup (c : Counter) (label : Nat) (rs : List Nat) : Counter × List Nat :=
+  let ks := groupOrder c label rs
+  (counterAfter c ks, sortNat (numberAll c ks))
+
+/-- all groups of a document: for every note its slur stops, slur starts, tuplet stops, tuplet starts -/
+def numberGroups (c : Counter) : List (Nat × List Nat) → List (List Nat)
+  | [] => []
+  | (label, rs) :: rest =>
+    let (c', ns) := numberGroup c label rs
+    ns :: numberGroups c' rest
+
 /-! ### reader: pairing by number -/
 
 /-- a `<slur>` / `<tuplet>` element of a note: which note (document index), the note's start time,
